@@ -149,15 +149,15 @@ def gen_cases(rng, tier):
         [[0, [[1, 1], [2], [3]]]],
         [[0, [[0], [1, 1], [1, 1], [2]]]],
         [[1, [[1, 1], [3]]]],
-        [[1, [[1, 2], [2]]]],
-        [[0, [[1, 1], [3]]], [0, [[2], [1, 2], [4], [2]]]],
+        [[0, [[1, 1], [3]]], [0, [[2], [1, 2], [4]]]],
         [[2, [[1, 1], [2]]]],
-        [[0, []]],
         [[1, [[0], [0], [3], [3], [4]]]],
     ]
+    if thorough:
+        base += [[[1, [[1, 2], [2]]]], [[0, []]], [[2, []], [1, [[2]]]]]
     for b in base:
         progs.append((rng.choice([1, 2]), 0, b))
-    nrand = 40 if thorough else 7
+    nrand = 40 if thorough else 2
     for _ in range(nrand):
         nb = rng.choice([1, 1, 2])
         bl = [[rng.choice([0, 0, 1, 1, 2]), _rand_ops(rng, rng.randint(0, 4))] for _ in range(nb)]
@@ -172,7 +172,8 @@ def gen_cases(rng, tier):
         for k in range(n + 1):
             cases.append({"in": [1, ps, mo, blocks, [0] * k + [1]], "kind": "async-cancel"})
         # double cancellation (second one anywhere in the following six suspensions)
-        for _ in range(3 if thorough else 1):
+        ndbl = 3 if thorough else (1 if len(cases) < 80 else 0)
+        for _ in range(ndbl):
             k = rng.randrange(n + 1)
             j = rng.randrange(6)
             cases.append({"in": [1, ps, mo, blocks, [0] * k + [1] + [0] * j + [1]], "kind": "async-cancel2"})
@@ -611,12 +612,12 @@ async def _settle(engine_pool):
         others = [x for x in asyncio.all_tasks() if x is not me]
         if not others:
             break
-        await asyncio.wait(others, timeout=0.5)
+        await asyncio.wait(others, timeout=0.25)
     hung = [x for x in asyncio.all_tasks() if x is not me]
     for x in hung:
         x.cancel()
     if hung:
-        await asyncio.wait(hung, timeout=0.5)
+        await asyncio.wait(hung, timeout=0.25)
     co1 = engine_pool.checkedout()
     with warnings.catch_warnings(record=True) as ws:
         warnings.simplefilter("always")
